@@ -39,8 +39,16 @@ def check(ctx):
     # returns is compared with what w denotes.  Independent of the dispatch's spelling (elif chain, early returns, flags).
     from ..rules import peval
 
+    def spell(e):
+        # one orientation for orderings: `goal > state` is `state < goal`
+        if isinstance(e, ast.Compare) and len(e.ops) == 1 and dotted(e.left) == "goal" and dotted(e.comparators[0]) == "state":
+            sw = {ast.Lt: ast.Gt, ast.Gt: ast.Lt, ast.LtE: ast.GtE, ast.GtE: ast.LtE}.get(type(e.ops[0]))
+            if sw:
+                e = ast.Compare(left=e.comparators[0], ops=[sw()], comparators=[e.left])
+        return src(e).replace("(", "").replace(")", "")
+
     def outcomes(w):
-        return [(k, src(e).replace("(", "").replace(")", "") if e is not None else None, h) for k, e, h in peval(V, {"comparison": w})]
+        return [(k, spell(e) if e is not None else None, h) for k, e, h in peval(V, {"comparison": w})]
     unknown = outcomes("\0no-such-comparison")
     ctx.check(bool(unknown) and all(k == "return" and e == "False" for k, e, h in unknown), "T9-op", nc, "unknown comparison -> False", "")
     handled = [w for w in comps if outcomes(w) != unknown]
